@@ -67,6 +67,12 @@ void MainSolver::initialize() {
     if (VERIF_ON()) {
         VERIF_TERM(logic, logic.getTerm_true());
         VERIF_TERM(logic, logic.getTerm_false());
+        VERIF_LINE("v %p %d %p %u", static_cast<void const *>(static_cast<CoreSMTSolver const *>(smt_solver.get())),
+                   var(term_mapper->getOrCreateLit(logic.getTerm_true())) + 1, static_cast<void const *>(&logic),
+                   logic.getTerm_true().x);
+        VERIF_LINE("v %p %d %p %u", static_cast<void const *>(static_cast<CoreSMTSolver const *>(smt_solver.get())),
+                   var(term_mapper->getOrCreateLit(logic.getTerm_false())) + 1, static_cast<void const *>(&logic),
+                   logic.getTerm_false().x);
         VERIF_LINE("i %p 0 %p %u %u %d 0", static_cast<void const *>(static_cast<CoreSMTSolver const *>(smt_solver.get())), static_cast<void const *>(&logic), logic.getTerm_true().x,
                    logic.getTerm_true().x, opensmt::verif::lit2int(term_mapper->getOrCreateLit(logic.getTerm_true())));
         VERIF_LINE("i %p 0 %p %u %u %d 0", static_cast<void const *>(static_cast<CoreSMTSolver const *>(smt_solver.get())), static_cast<void const *>(&logic), logic.getTerm_true().x,
@@ -351,6 +357,12 @@ sstat MainSolver::giveToSolver(PTRef root, FrameId push_id) {
             char verifPrefix[96];
             std::snprintf(verifPrefix, sizeof verifPrefix, "%u %p %u %u", static_cast<unsigned>(push_id),
                           static_cast<void const *>(&logic), root.x, frameTerms[push_id].x);
+            for (Lit verifLit : clause) {
+                PTRef verifAtom = term_mapper->varToPTRef(var(verifLit));
+                VERIF_TERM(logic, verifAtom);
+                VERIF_LINE("v %p %d %p %u", static_cast<void const *>(static_cast<CoreSMTSolver const *>(smt_solver.get())),
+                           var(verifLit) + 1, static_cast<void const *>(&logic), verifAtom.x);
+            }
             VERIF_CLAUSE_S("i", static_cast<void const *>(static_cast<CoreSMTSolver const *>(smt_solver.get())), verifPrefix, clause, clause.size());
         }
 #endif
@@ -377,6 +389,9 @@ sstat MainSolver::check() {
         printf("; %s query time so far: %f\n", solver_name.c_str(), query_timer.getTime());
         StopWatch sw(query_timer);
     }
+#ifdef OPENSMT_VERIF
+    if (isLastFrameUnsat()) { VERIF_LINE("res %p unsat-frame", static_cast<void const *>(this)); }
+#endif
     if (isLastFrameUnsat()) { return s_False; }
     sstat rval = simplifyFormulas();
 
@@ -392,6 +407,8 @@ sstat MainSolver::check() {
         }
     }
 
+    VERIF_LINE("res %p %s", static_cast<void const *>(this),
+               rval == s_True ? "sat" : rval == s_False ? "unsat" : rval == s_Undef ? "unknown" : "error");
     return rval;
 }
 
